@@ -142,18 +142,20 @@ class MDOParallelChain(ProcessDiscipline):
         self._set_disciplines_diff_inputs(input_names)
         jacobians = self.parallel_lin.execute(self._get_input_data_copies())
         self.jac = {}
-        # Update jacobians according to input order of priority
-        for discipline_jacobian in jacobians:
+        # Update jacobians according to input order of priority:
+        # as for the output data,
+        # the last discipline computing an output defines its Jacobian.
+        for discipline, discipline_jacobian in zip(self.disciplines, jacobians):
             if discipline_jacobian is None:
                 # The linearization of this discipline failed.
                 continue
 
+            for output_name in discipline.io.output_grammar:
+                if output_name in output_names:
+                    self.jac[output_name] = {}
+
             for output_name, output_jacobian in discipline_jacobian.items():
-                chain_jacobian = self.jac.get(output_name)
-                if chain_jacobian is None:
-                    chain_jacobian = {}
-                    self.jac[output_name] = chain_jacobian
-                chain_jacobian.update(output_jacobian)
+                self.jac[output_name] = dict(output_jacobian)
 
         self._init_jacobian(
             input_names,
